@@ -2,6 +2,7 @@ package main
 
 import (
 	"bytes"
+	"errors"
 	"sync"
 	"sync/atomic"
 
@@ -29,6 +30,13 @@ type deferWriter struct {
 	completed int
 	overlap   bool
 	flushes   atomic.Int32
+
+	// client disconnect: the Flush that would commit frame number cutAt (0 = the initial frame) fails, the request
+	// context is cancelled at that moment and every later writer call fails as well
+	cutAt     int // -1 = never
+	cancel    func()
+	failed    atomic.Bool
+	afterFail int // Write/Flush calls made after a writer call had already returned an error
 
 	parkKind string
 	parkAt   int
@@ -61,8 +69,17 @@ func (w *deferWriter) maybePark(kind string) {
 	}
 }
 
+var errClientGone = errors.New("verif: client disconnected")
+
 func (w *deferWriter) Write(p []byte) (int, error) {
 	defer w.enter()()
+	if w.failed.Load() {
+		w.mu.Lock()
+		w.afterFail++
+		w.calls = append(w.calls, "W")
+		w.mu.Unlock()
+		return 0, errClientGone
+	}
 	w.maybePark("w")
 	g := quiesce.Goid()
 	w.mu.Lock()
@@ -78,8 +95,27 @@ func (w *deferWriter) Write(p []byte) (int, error) {
 
 func (w *deferWriter) Flush() error {
 	defer w.enter()()
+	if w.failed.Load() {
+		w.mu.Lock()
+		w.afterFail++
+		w.calls = append(w.calls, "X")
+		w.mu.Unlock()
+		return errClientGone
+	}
 	w.maybePark("f")
 	w.mu.Lock()
+	if w.cutAt >= 0 && len(w.frames) == w.cutAt {
+		// the client went away: this frame is lost
+		w.cur.Reset()
+		w.curW = nil
+		w.calls = append(w.calls, "x")
+		w.mu.Unlock()
+		w.failed.Store(true)
+		if w.cancel != nil {
+			w.cancel()
+		}
+		return errClientGone
+	}
 	w.frames = append(w.frames, frameRec{Bytes: append([]byte(nil), w.cur.Bytes()...), Writers: w.curW})
 	w.cur.Reset()
 	w.curW = nil
@@ -117,7 +153,7 @@ func (w *deferWriter) Error(data []byte) {
 func (w *deferWriter) finish() {
 	w.mu.Lock()
 	defer w.mu.Unlock()
-	if w.cur.Len() > 0 {
+	if w.cur.Len() > 0 && !w.failed.Load() {
 		w.frames = append(w.frames, frameRec{Bytes: append([]byte(nil), w.cur.Bytes()...), Writers: w.curW})
 		w.cur.Reset()
 		w.calls = append(w.calls, "F") // implicit
